@@ -134,10 +134,16 @@ pub fn main(args: &[String], w: &mut dyn Write) {
         let mut base_args: Vec<&str> = vec!["--log-level", "error"];
         let lang_args: Vec<&str> = if lang == "sh" { vec!["--markdown-languages", "sh"] } else { vec![] };
         // the path comes first: --markdown-languages takes any number of values
-        let mut upd: Vec<&str> = vec!["update", "--replace", "--assume-yes"]; upd.extend(&base_args); upd.push("doc.md"); upd.extend(&lang_args);
+        // one run in three writes the updated document next to the original (`doc.md.new`, no --replace): it is then moved over the
+        // original, as a user would, before the second update
+        let newfile = r.chance(1, 3);
+        let mut upd: Vec<&str> = if newfile { vec!["update", "--assume-yes"] } else { vec!["update", "--replace", "--assume-yes"] }; upd.extend(&base_args); upd.push("doc.md"); upd.extend(&lang_args);
+        let take_new = |doc: &Path| { let n = doc.with_file_name("doc.md.new"); if newfile && n.exists() { let _ = std::fs::rename(&n, doc); } };
         let e1 = run_scrut(&scrut, dir.path(), &tmp, &upd);
+        take_new(&doc);
         let u1 = std::fs::read_to_string(&doc).unwrap_or_default();
         let e2 = run_scrut(&scrut, dir.path(), &tmp, &upd);
+        take_new(&doc);
         let u2 = std::fs::read_to_string(&doc).unwrap_or_default();
         let (end1, end2) = (endings(&u1), endings(&u2));
         let (u1, u2) = (u1.replace("\r\n", "\n"), u2.replace("\r\n", "\n"));
@@ -147,7 +153,7 @@ pub fn main(args: &[String], w: &mut dyn Write) {
         let kinds: Vec<&str> = d.iter().filter_map(|e| match e { El::Test { words, expect, code, expect_code, .. } =>
             Some(if passes(words, expect, *code, *expect_code) { "ok" } else if expect_code.unwrap_or(0) != *code { "code" } else { "output" }), El::Detached => Some("ok"), _ => None }).collect();
         let norm = |t: &str| if lang == "sh" { swap_lang(t) } else { t.to_string() };
-        writeln!(w, "K {}|{}|{}|{}|{}|{}|lang={} update={},{} test={} endings={}>{}>{}", hex(norm(&text).as_bytes()), kinds.join(","), hex(norm(&u1).as_bytes()), hex(norm(&u2).as_bytes()),
-            cmds(&p, &text), cmds(&p, &u1), lang, e1, e2, et, if crlf { "crlf" } else { "lf" }, end1, end2).unwrap();
+        writeln!(w, "K {}|{}|{}|{}|{}|{}|lang={} update={},{} test={} endings={}>{}>{} mode={}", hex(norm(&text).as_bytes()), kinds.join(","), hex(norm(&u1).as_bytes()), hex(norm(&u2).as_bytes()),
+            cmds(&p, &text), cmds(&p, &u1), lang, e1, e2, et, if crlf { "crlf" } else { "lf" }, end1, end2, if newfile { "new-file" } else { "replace" }).unwrap();
     }
 }
